@@ -25,12 +25,29 @@ const (
 	LStuck    = 103 // the case did not reach quiescence within the deadline
 	LOnError  = 104 // (bidx 104 n)          onRetryError callback observed with n events
 	LDqOut    = 105 // (1 105 id)            Router.Fail handed the event to the dead-queue output
+	LMaint    = 106 // (0 106 n)             BatcherOptions.MaintenanceFn ran for the n-th time (harness-only)
 )
 
 type label struct {
 	bidx int
 	kind int
 	args []int64
+	t    time.Time
+}
+
+// Pause is one pause of the retry loop of RetriableBatcher.Out: the time between the return of the failed attempt `Tries`
+// of batch `Seq` (label RetryResult) and the start of the next attempt (label RetryCall).
+type Pause struct {
+	Seq, Tries int64
+	D          time.Duration
+}
+
+// Timing is what a case showed about real time (not part of the observable: it is not replayable bit for bit).
+type Timing struct {
+	Cfg    Cfg
+	Pauses []Pause
+	// FlushLag: for every batch sealed by time-out (status 2), the time from its first Add to the Seal
+	FlushLag []time.Duration
 }
 
 type caseLog struct {
@@ -41,7 +58,7 @@ type caseLog struct {
 
 func (l *caseLog) add(bidx, kind int, args ...int64) {
 	l.mu.Lock()
-	l.labels = append(l.labels, label{bidx, kind, args})
+	l.labels = append(l.labels, label{bidx, kind, args, time.Now()})
 	l.mu.Unlock()
 }
 
@@ -113,6 +130,9 @@ type Cfg struct {
 	Retry                                int
 	DeadQ                                bool
 	DqWorkers, DqCount                   int
+	// optional (carried by the stop tuple): backoff MinRetention in ms and Multiplier in percent (0 = the historical
+	// 1 ms / 1.0), MaintenanceInterval in ms (0 = no MaintenanceFn)
+	RetentionMs, MultPct, MaintMs int
 }
 
 var errSend = errors.New("scripted send failure")
@@ -124,7 +144,15 @@ var errSend = errors.New("scripted send failure")
 //   outplan = ((delayMs failures) ...) indexed by the order in which OutFn is first entered per batch seq
 //   stop = (mode arg)  0: stop after quiescence; 1: Stop() after arg ms, concurrently with the adders;
 //                      2: hold the first adder that seals a batch at the point after mu.Unlock until Stop() was called
+//          arg is a number, or the list (arg retentionMs multiplierPercent maintenanceMs): BackoffOpts.MinRetention /
+//          Multiplier of the retriable batcher (0 = 1 ms / 1.0) and MaintenanceInterval of the main batcher (0 = no hook)
 func RunCase(cs hx.Sx) hx.Sx {
+	obs, _ := RunCaseT(cs)
+	return obs
+}
+
+// RunCaseT is RunCase plus the real-time observations of the run.
+func RunCaseT(cs hx.Sx) (hx.Sx, Timing) {
 	installHooks()
 	it := hx.Items(cs)
 	ci := hx.Items(it[0])
@@ -133,7 +161,20 @@ func RunCase(cs hx.Sx) hx.Sx {
 	adders := hx.Items(it[1])
 	plan := hx.Items(it[2])
 	stop := hx.Items(it[3])
-	stopMode, stopArg := int(hx.Int(stop[0])), int(hx.Int(stop[1]))
+	stopMode := int(hx.Int(stop[0]))
+	stopArg := 0
+	if hx.IsList(stop[1]) {
+		x := hx.Items(stop[1])
+		g := func(i int) int {
+			if i < len(x) {
+				return int(hx.Int(x[i]))
+			}
+			return 0
+		}
+		stopArg, cfg.RetentionMs, cfg.MultPct, cfg.MaintMs = g(0), g(1), g(2), g(3)
+	} else {
+		stopArg = int(hx.Int(stop[1]))
+	}
 
 	log := &caseLog{}
 	mctl := metric.NewCtl("verif", prometheus.NewRegistry(), time.Minute, 0)
@@ -196,13 +237,28 @@ func RunCase(cs hx.Sx) hx.Sx {
 		Workers: cfg.Workers, BatchSizeCount: cfg.MaxCount, BatchSizeBytes: cfg.MaxBytes,
 		FlushTimeout: time.Duration(cfg.FlushMs) * time.Millisecond, MetricCtl: mctl,
 	}
+	if cfg.MaintMs > 0 {
+		var maintN atomic.Int64
+		opts.MaintenanceInterval = time.Duration(cfg.MaintMs) * time.Millisecond
+		opts.MaintenanceFn = func(*pipeline.WorkerData) {
+			log.add(0, LMaint, maintN.Add(1))
+			time.Sleep(time.Millisecond)
+		}
+	}
+	bo := pipeline.BackoffOpts{MinRetention: time.Millisecond, Multiplier: 1.0, AttemptNum: cfg.Retry, IsDeadQueueAvailable: cfg.DeadQ}
+	if cfg.RetentionMs > 0 {
+		bo.MinRetention = time.Duration(cfg.RetentionMs) * time.Millisecond
+	}
+	if cfg.MultPct > 0 {
+		bo.Multiplier = float64(cfg.MultPct) / 100
+	}
 	var main *pipeline.Batcher
 	var addFn func(*pipeline.Event)
 	var stopFn func()
 	if cfg.Retriable {
 		rb := pipeline.NewRetriableBatcher(&opts,
 			func(_ *pipeline.WorkerData, b *pipeline.Batch) error { return send(0, b) },
-			pipeline.BackoffOpts{MinRetention: time.Millisecond, Multiplier: 1.0, AttemptNum: cfg.Retry, IsDeadQueueAvailable: cfg.DeadQ},
+			bo,
 			func(err error, events []*pipeline.Event) {
 				log.add(0, LOnError, int64(len(events)))
 				for i := range events { // what elasticsearch / kafka / ... outputs do
@@ -395,14 +451,39 @@ func RunCase(cs hx.Sx) hx.Sx {
 	log.mu.Lock()
 	defer log.mu.Unlock()
 	out := make([]hx.Sx, 0, len(log.labels))
+	tm := Timing{Cfg: cfg}
+	failedAt := map[[2]int64]time.Time{} // (seq, tries) -> time of the failed RetryResult
+	var firstAdd time.Time               // first Add of the batch being filled (main batcher)
 	for _, l := range log.labels {
 		items := []hx.Sx{hx.I(l.bidx), hx.I(l.kind)}
 		for _, a := range l.args {
 			items = append(items, hx.Z(a))
 		}
 		out = append(out, hx.L(items...))
+		if l.bidx != 0 {
+			continue
+		}
+		switch l.kind {
+		case pipeline.VtRetryResult:
+			if l.args[2] == 0 {
+				failedAt[[2]int64{l.args[0], l.args[1]}] = l.t
+			}
+		case pipeline.VtRetryCall:
+			if t0, ok := failedAt[[2]int64{l.args[0], l.args[1] - 1}]; ok {
+				tm.Pauses = append(tm.Pauses, Pause{l.args[0], l.args[1] - 1, l.t.Sub(t0)})
+			}
+		case pipeline.VtBatchAdd:
+			if firstAdd.IsZero() {
+				firstAdd = l.t
+			}
+		case pipeline.VtBatchSeal:
+			if l.args[2] == 2 && !firstAdd.IsZero() {
+				tm.FlushLag = append(tm.FlushLag, l.t.Sub(firstAdd))
+			}
+			firstAdd = time.Time{}
+		}
 	}
-	return hx.L(out...)
+	return hx.L(out...), tm
 }
 
 func regBatcher(b *pipeline.Batcher, log *caseLog, bidx int, gate func(int)) {
